@@ -272,4 +272,99 @@ AggrLoop(chunks, r, bsz, acc) ==
          IN AggrLoop(SubSeq(chunks, j + 1, Len(chunks)), r, bsz, Append(acc, AggrPartChunk(SubSeq(chunks, 1, j), r)))
 AlgoAggr(chunks, r, nc) == AggrLoop(chunks, r, Len(chunks) \div nc, <<>>)
 
+(* ======================= native histograms ============================= *)
+(* Phase 2.  A histogram sample is a vector (sequence of integers)         *)
+(*     <<count, sum, bucket_1, ..., bucket_K>>                             *)
+(* (FloatHistogram with integer-valued fields on one fixed bucket layout). *)
+(* A raw histogram series: raw.ts, raw.ks ("H" | "STALE": a stale marker   *)
+(* histogram), raw.hv (the vectors; a zero vector where stale), raw.gauge. *)
+(* Downsampled histogram chunks carry three aggregates: count (how many    *)
+(* histograms), sum (their component-wise sum, a gauge histogram) and      *)
+(* counter (cumulative histogram): records [mint, maxt, ts, cnt, hsum,     *)
+(* hctr].                                                                  *)
+
+VAdd(a, b) == [i \in DOMAIN a |-> a[i] + b[i]]
+VSub(a, b) == [i \in DOMAIN a |-> a[i] - b[i]]
+VZero(a) == [i \in DOMAIN a |-> 0]
+VSumOver(f, S, zero) == FoldFunctionOnSet(VAdd, zero, f, S)
+
+(* ---- property level ---- *)
+HIsNum(raw, i) == raw.ks[i] = "H"
+HNumIn(raw, lo, hi) == { i \in lo..hi : HIsNum(raw, i) }
+HWinIdx(raw, T, r) == HNumIn(raw, LastLE(raw.ts, WinLo(T, r) - 1) + 1, LastLE(raw.ts, WinHi(T, r)))
+(* C36 read on a histogram series: "count ... and sum at each output timestamp equal those of *)
+(* the raw non-stale samples in that downsampling window" (min / max do not exist here).      *)
+HSampleExact(raw, r, c, j, zero) ==
+    LET S == HWinIdx(raw, c.ts[j], r) IN
+    /\ c.cnt[j] = Cardinality(S)
+    /\ c.hsum[j] = VSumOver(raw.hv, S, zero)
+HChunksExact(raw, r, chunks, zero) ==
+    \A k \in DOMAIN chunks : \A j \in DOMAIN chunks[k].ts : HSampleExact(raw, r, chunks[k], j, zero)
+HTotalsEqual(raw, chunks, zero) ==
+    LET S == HNumIn(raw, 1, Len(raw.ts))
+        hs == Flat(chunks, "hsum")
+    IN /\ SumSeq(Flat(chunks, "cnt")) = Cardinality(S)
+       /\ VSumOver(hs, DOMAIN hs, zero) = VSumOver(raw.hv, S, zero)
+(* C38 read on histogram aggregates: total count and total sum are preserved.  *)
+HTotalsConserved(inC, outC, zero) ==
+    LET hi == Flat(inC, "hsum")  ho == Flat(outC, "hsum") IN
+    /\ SumSeq(Flat(outC, "cnt")) = SumSeq(Flat(inC, "cnt"))
+    /\ VSumOver(ho, DOMAIN ho, zero) = VSumOver(hi, DOMAIN hi, zero)
+
+(* ---- algorithm level ---- *)
+(* FloatHistogram.DetectReset on one layout: the count or some bucket went down.  *)
+VDetectReset(cur, prev) == cur[1] < prev[1] \/ \E i \in 3..Len(cur) : cur[i] < prev[i]
+(* histogramAggregator: total, count, sum (none = <<>>), counter, previous  *)
+HAg0 == [total |-> 0, count |-> 0, sum |-> <<>>, counter |-> <<>>, prev |-> <<>>]
+HAgReset(a) == [a EXCEPT !.count = 0, !.sum = <<>>]
+HAgAdd(a, v, gauge) ==
+    [total |-> a.total + 1, count |-> a.count + 1,
+     sum |-> IF a.sum = <<>> THEN v ELSE VAdd(a.sum, v),
+     counter |-> IF a.total = 0 THEN v
+                 ELSE IF ~gauge /\ VDetectReset(v, a.prev) THEN VAdd(a.counter, v)
+                 ELSE VAdd(a.counter, VSub(v, a.prev)),
+     prev |-> v]
+HEmit(out, T, a) == Append(out, [t |-> T, cnt |-> a.count, hsum |-> a.sum, hctr |-> a.counter])
+HBatchStep(st, s, r, lastT, gauge) ==
+    IF s.t > st.nextT
+      THEN [out |-> IF st.nextT # -1 THEN HEmit(st.out, st.nextT, st.ag) ELSE st.out,
+            nextT |-> Min2(CurWin(s.t, r), lastT),
+            ag |-> HAgAdd(HAgReset(st.ag), s.v, gauge)]
+      ELSE [st EXCEPT !.ag = HAgAdd(st.ag, s.v, gauge)]
+HBatchRun(batch, r, gauge) ==      \* batch: non-empty sequence of [t, v] with v a vector
+    LET lastT == batch[Len(batch)].t
+        st == FoldLeft(LAMBDA acc, s : HBatchStep(acc, s, r, lastT, gauge), [out |-> <<>>, nextT |-> -1, ag |-> HAg0], batch)
+    IN IF st.ag.total > 0 THEN HEmit(st.out, st.nextT, st.ag) ELSE st.out
+(* downsampleHistogramBatch  *)
+HBatchChunk(batch, r, gauge) ==
+    LET out == HBatchRun(batch, r, gauge) IN
+    [mint |-> out[1].t, maxt |-> out[Len(out)].t, ts |-> Col(out, "t"), cnt |-> Col(out, "cnt"),
+     hsum |-> Col(out, "hsum"), hctr |-> Col(out, "hctr")]
+HRawBatch(raw, p, j) ==
+    SelectSeq([k \in 1..(j - p + 1) |-> [t |-> raw.ts[p + k - 1], v |-> raw.hv[p + k - 1], k |-> raw.ks[p + k - 1]]],
+              LAMBDA s : s.k = "H")
+RECURSIVE HRawLoop(_, _, _, _, _)
+HRawLoop(raw, r, bsz, p, acc) ==
+    IF p > N(raw) THEN acc
+    ELSE LET j == RawBatchEnd(raw, r, bsz, p)
+             b == HRawBatch(raw, p, j)
+         IN HRawLoop(raw, r, bsz, j + 1, IF b = <<>> THEN acc ELSE Append(acc, HBatchChunk(b, r, raw.gauge)))
+HAlgoRaw(raw, r, nc) == IF N(raw) = 0 THEN <<>> ELSE HRawLoop(raw, r, (N(raw) \div nc) + 1, 1, <<>>)
+(* downsampleHistogramAggrBatch: counter and sum samples of the part's chunks are expanded  *)
+(* and run through downsampleBatch with a fresh histogram aggregator each (its .counter /    *)
+(* .sum is taken), the count through genericAggregate (sum of counts).                       *)
+HAggrPartChunk(part, r, gauge) ==
+    LET T == Flat(part, "ts")
+        rk == HBatchRun(TVSeq(T, Flat(part, "hctr")), r, gauge)
+        rs == HBatchRun(TVSeq(T, Flat(part, "hsum")), r, TRUE)      \* sums carry the gauge hint
+        rc == BatchRun(TVSeq(T, Flat(part, "cnt")), r).out
+    IN [mint |-> rc[1].t, maxt |-> rc[Len(rc)].t, ts |-> Col(rc, "t"), cnt |-> Col(rc, "sum"),
+        hsum |-> Col(rs, "hsum"), hctr |-> Col(rk, "hctr")]
+RECURSIVE HAggrLoop(_, _, _, _, _)
+HAggrLoop(chunks, r, bsz, gauge, acc) ==
+    IF chunks = <<>> THEN acc
+    ELSE LET j == Min2(bsz, Len(chunks))
+         IN HAggrLoop(SubSeq(chunks, j + 1, Len(chunks)), r, bsz, gauge, Append(acc, HAggrPartChunk(SubSeq(chunks, 1, j), r, gauge)))
+HAlgoAggr(chunks, r, nc, gauge) == HAggrLoop(chunks, r, Len(chunks) \div nc, gauge, <<>>)
+
 =============================================================================
